@@ -313,9 +313,10 @@ def shard(seed: int, shard_i: int, n: int, opts: dict) -> dict:
     # determinism across processes: another interpreter, with other string hashes (hence other set iteration orders),
     # generates the same schemas
     batch = [(c, out) for c, out in zip(cases, reals) if "ok" in out and record_like(c["v"])][:int(opts.get("cross", 40))]
+    CROSS_RAN[0] = False
     for c, what in other_process_differs(batch, seed * 101 + shard_i + 1):
         failures.append({"property": "C10", "case": dict(c, cross=seed * 101 + shard_i + 1), "xd": c["named"], "what": what, "real": None})
-    stats["compared-with-another-process"] += len(batch)
+    stats["compared-with-another-process" if CROSS_RAN[0] else "other-process-unavailable"] += len(batch)
     answers = driver.run_batch(reqs) if reqs else []
     disagreements = []
     for c, real, a in zip(cases, reals, answers):
@@ -395,6 +396,9 @@ def record_like(v: Any) -> bool:
     return any(f'"k": "{k}"' in t for k in ("record", "dictAny", "dataclass", "namedtuple", "typeddict", "map", "set"))
 
 
+CROSS_RAN = [False]      # whether the last call of other_process_differs got an answer for every case
+
+
 def other_process_differs(batch: List[Tuple[dict, dict]], hashseed: int) -> List[Tuple[dict, str]]:
     """[(case, what)] for the cases whose schema, generated by a fresh interpreter started with PYTHONHASHSEED=hashseed,
     is not the schema generated here"""
@@ -414,6 +418,7 @@ def other_process_differs(batch: List[Tuple[dict, dict]], hashseed: int) -> List
         if p.returncode != 0 or len(lines) != len(batch):
             return []           # the worker could not run: nothing is concluded
         out = []
+        CROSS_RAN[0] = True
         for (c, here), line in zip(batch, lines):
             there = json.loads(line)
             if "ok" in there and there["ok"] != here["ok"]:
